@@ -151,6 +151,64 @@ def probe_tail(events, svcs, interleave=False):
     return [e for t in tails for e in t]
 
 
+_TAGRE = re.compile(r"^([0-9a-f]+)_([0-9a-f]+)$")
+
+
+def splice(events, insertions):
+    """events with extra events inserted (insertions: {index in events: [events]}); the routing tags of `events` (which
+    name the s-th C line of `events`) are re-spelled for the positions the C lines have in the result."""
+    combined = []
+    for k, e in enumerate(events):
+        combined += [dict(x) for x in insertions.get(k, [])]
+        combined.append(dict(e, _old=True))
+    combined += [dict(x) for x in insertions.get(len(events), [])]
+    remap, nold, nnew = {}, 0, 0
+    for e in combined:
+        if e["e"] == "C":
+            nnew += 1
+            if e.get("_old"):
+                nold += 1
+                remap[nold] = nnew
+    out = []
+    for e in combined:
+        old = e.pop("_old", False)
+        if old and e["e"] == "X":
+            m = _TAGRE.match(e["tag"])
+            if m and int(m.group(2), 16) in remap:
+                e["tag"] = "%s_%x" % (m.group(1), remap[int(m.group(2), 16)])
+        out.append(e)
+    return out
+
+
+def crowd_between(ctx, behaviours, svcs):
+    """Transform for plans with re-announcements: between the first and the second announcement of an id, 14 / 15 / 30 other
+    clients come and go, so that the serial of the second instance has one hex digit more than the first one's (`5_1` and
+    `5_10`: one tag is a prefix of the other) when the history runs on a fresh daemon.  Behaviours without a re-announcement
+    are dropped (the plan is an addition to one that replays them)."""
+    out = []
+    for b in behaviours:
+        seen, pos = set(), None
+        for k, e in enumerate(b):
+            if e["e"] == "C":
+                if e["id"] in seen:
+                    pos = k
+                    break
+                seen.add(e["id"])
+        if pos is None:
+            continue
+        n = (14, 15, 30)[len(out) % 3]
+        crowd = []
+        for j in range(n):
+            crowd += [{"e": "C", "id": 300 + j, "addr": "A%x" % (300 + j), "port": 3000 + j}, {"e": "D", "id": 300 + j}]
+        out.append(splice(b, {pos: crowd}))
+    return out
+
+
+def crowd_also(limit=250):
+    """`also=` entry: re-announcement behaviours replayed once more, each on a fresh daemon, with a crowd between the instances."""
+    return [(lambda bs: crowd_between(None, bs, None)[:limit], {"behaviours_per_process": 1})]
+
+
 def _replay_worker(args):
     (root, moddir, daemonpath, workdir, svcs, timeout_on, behaviours, trace_path, opts) = args
 
@@ -545,7 +603,10 @@ def standard(ctx, plans, own, crash_is_own=False, need=()):
             total_stats[k] = total_stats.get(k, 0) + v
         steps = sum(x["steps"] for x in res)
         for (nth, opts2) in plan.also:
+            opts2 = dict(plan.opts, **opts2)
             sub = nth(behaviours) if callable(nth) else behaviours[::nth]
+            if not sub:
+                continue
             p2 = Plan(plan.name + "-also", plan.table, opts=opts2, **plan.mc)
             res2 = replay(ctx, sub, svcs, timeout_on, tag=p2.name, **opts2)
             f2 = validate_all(ctx, res2)
